@@ -236,7 +236,20 @@ def map_cases(draw, tier="quick"):
         n_tp = sum(W_AP[c] for c in syms)
         g = draw(st.sampled_from([n_tp, n_tp + 1, n_tp + 3, 0 if n_tp == 0 else n_tp]))
         buckets[lab] = {"r": syms, "gt": g}
-    return {"labels": labels, "buckets": buckets, "is2d": False}
+    # per-label thresholds (T-type pairs are 0.2 m apart, G pairs 3 m): a label's results must be judged by ITS threshold;
+    # the bucket dicts are handed over in an arbitrary key order (a dict has no label positions)
+    thr = [draw(st.sampled_from([1.0, 1.0, 0.5, 2.0, 5.0, 0.1])) for _ in labels]
+    order = draw(st.permutations(list(range(len(labels)))))
+    return {"labels": labels, "buckets": buckets, "is2d": False, "thr": thr, "dict_order": order}
+
+
+def _w(sym, thr, table):
+    """Weight of a symbol under a centre-distance threshold `thr` (T/H/Q/Z pairs are 0.2 m apart, G pairs 3 m)."""
+    if sym == "G":
+        return 1 if 3.0 < thr else 0
+    if sym in ("T", "H", "Q", "Z"):
+        return table[sym] if 0.2 < thr else 0
+    return 0
 
 
 @CHECK.given("maps", lambda tier: map_cases(tier), quick=250, thorough=16000)
@@ -246,20 +259,28 @@ def maps(ctx, d):
 
     labels = d["labels"]
     lt = [D.label_type(x) for x in labels]
-    res_dict, num_dict, r_aps, r_aphs = {}, {}, [], []
+    thrs = d.get("thr") or [1.0] * len(labels)
+    res_lists, nums, r_aps, r_aphs = {}, {}, [], []
     nonempty = 0
-    for lab, t in zip(labels, lt):
+    for lab, t, thr in zip(labels, lt, thrs):
         b = d["buckets"][lab]
         syms = list(b["r"])
         res = [result_for(c, i, False, lab) for i, c in enumerate(syms)]
-        res_dict[t] = res[::-1]
-        num_dict[t] = b["gt"]
+        res_lists[t] = res[::-1]
+        nums[t] = b["gt"]
         nonempty += 1 if syms else 0
-        n_tp = sum(W_AP[c] for c in syms)
-        if b["gt"] == 0 and n_tp > 0:
-            return  # not producible by the matcher; nothing asserted
-        r_aps.append(RA.interpolated_ap([W_AP[c] for c in syms], b["gt"]))
-        r_aphs.append(RA.interpolated_ap([W_APH[c] for c in syms], b["gt"]))
+        n_tp = sum(_w(c, thr, W_AP) for c in syms)
+        if b["gt"] < n_tp:
+            return  # more TPs than ground truths: not producible by the matcher; nothing asserted
+        r_aps.append(RA.interpolated_ap([_w(c, thr, W_AP) for c in syms], b["gt"]))
+        r_aphs.append(RA.interpolated_ap([_w(c, thr, W_APH) for c in syms], b["gt"]))
+    korder = d.get("dict_order") or list(range(len(labels)))
+    res_dict = {lt[k]: res_lists[lt[k]] for k in korder}
+    num_dict = {lt[k]: nums[lt[k]] for k in reversed(korder)}
+    if list(korder) != sorted(korder):
+        ctx.cls("dict_order_permuted")
+    if len(set(thrs)) > 1:
+        ctx.cls("per_label_thresholds_differ")
     ctx.mark_nontrivial(nonempty >= 2)
     if nonempty < len(labels):
         ctx.cls("has_undefined_label")
@@ -270,7 +291,7 @@ def maps(ctx, d):
             num_ground_truth_dict=num_dict,
             target_labels=lt,
             matching_mode=MatchingMode.CENTERDISTANCE,
-            matching_threshold_list=[1.0] * len(lt),
+            matching_threshold_list=list(thrs),
         )
     if m is None:
         return
@@ -307,14 +328,14 @@ def manager_scenes(ctx, d):
     targets, pol = d["targets"], d["policy"]
     labels_with_results = set()
     for i, res in enumerate(run["results"]):
-        SL.check_maps(ctx, res.metrics_score.maps, [res], targets, pol, "frame")
+        SL.check_maps(ctx, res.metrics_score.maps, [res], targets, pol, "frame", d)
         for r in res.object_results:
             labels_with_results.add(r.estimated_object.semantic_label.label.value)
     scene = None
     with ctx.under_test("get_scene_result"):
         scene = run["mgr"].get_scene_result()
     if scene is not None:
-        SL.check_maps(ctx, scene.maps, run["mgr"].frame_results, targets, pol, "scene")
+        SL.check_maps(ctx, scene.maps, run["mgr"].frame_results, targets, pol, "scene", d)
     ctx.cls("frame_" + d["frame"])
     ctx.cls("policy_" + d["policy"])
     ctx.mark_nontrivial(len(labels_with_results & set(targets)) >= 2)
@@ -340,7 +361,7 @@ def manager_scenes2d(ctx, d):
     targets, pol = d["targets"], d["policy"]
     labels_with_results = set()
     for res in run["results"]:
-        SL.check_maps(ctx, res.metrics_score.maps, [res], targets, pol, "frame2d")
+        SL.check_maps(ctx, res.metrics_score.maps, [res], targets, pol, "frame2d", d)
         for m in res.metrics_score.maps:
             ctx.require(not m.aphs, "aph-for-2d", "a 2D Map carries APH scores")
         for r in res.object_results:
@@ -349,6 +370,6 @@ def manager_scenes2d(ctx, d):
     with ctx.under_test("get_scene_result"):
         scene = run["mgr"].get_scene_result()
     if scene is not None:
-        SL.check_maps(ctx, scene.maps, run["mgr"].frame_results, targets, pol, "scene2d")
+        SL.check_maps(ctx, scene.maps, run["mgr"].frame_results, targets, pol, "scene2d", d)
     ctx.cls("task_" + d["task"])
     ctx.mark_nontrivial(len(labels_with_results & set(targets)) >= 2)
